@@ -6,7 +6,7 @@ package main
 
 // ---- C02: the test-mode loops of main act only on UEs that completed the prerequisite procedure ----
 //@ func main
-//@ prop C02
+//@ prop C02 C18
 //@ behavior testmode
 //@ driver
 //@ assumepre
@@ -24,3 +24,13 @@ package main
 //@ loop i#5 invariant prereq (pdu_release_number int, pdu_establishment_number int): pdu_release_number <= pdu_establishment_number
 //@ loop i#6 invariant pos (i int): 0 <= i
 //@ loop i#6 invariant prereq (ueList []*tglib.RanUeContext, ue_deregistration_number int): ue_deregistration_number <= len(ueList)
+
+// ---- C18: every configured value is the value the procedure receives (test mode) ----
+//@ call ConnectToAmf cfg (amfIP string, stgIP string, amfPort int, stgPort int, c stgutg.Conf): amfIP == c.Configuration.AmfNgapIP && stgIP == c.Configuration.StgNgapIP && amfPort == c.Configuration.AmfNgapPort && stgPort == c.Configuration.StgNgapPort
+//@ call ManageNGSetup cfg (gnbId string, imsi string, mnc string, bitlength uint64, name string, c stgutg.Conf): gnbId == c.Configuration.Gnb_id && imsi == c.Configuration.Initial_imsi && mnc == c.Configuration.Mnc && bitlength == c.Configuration.Gnb_bitlength && name == c.Configuration.Gnb_name
+//@ call CreateUE cfg (imsi string, ueNumber int, K string, OPC string, OP string, i int, c stgutg.Conf): imsi == c.Configuration.Initial_imsi && ueNumber == i && K == c.Configuration.K && OPC == c.Configuration.OPC && OP == c.Configuration.OP
+//@ call RegisterUE cfg (mnc string, mcc string, c stgutg.Conf): mnc == c.Configuration.Mnc && mcc == c.Configuration.Mcc
+//@ call EstablishPDU cfg (sst int32, sd string, gnb_gtp string, c stgutg.Conf): sst == c.Configuration.SST && sd == c.Configuration.SD && gnb_gtp == c.Configuration.Gnb_gtp
+//@ call ServiceRequest cfg (gnb_gtp string, c stgutg.Conf): gnb_gtp == c.Configuration.Gnb_gtp
+//@ call ReleasePDU cfg (sst int32, sd string, c stgutg.Conf): sst == c.Configuration.SST && sd == c.Configuration.SD
+//@ call DeregisterUE cfg (mnc string, c stgutg.Conf): mnc == c.Configuration.Mnc
